@@ -2171,7 +2171,9 @@ impl<T: Storage> Raft<T> {
                     return Ok(());
                 }
 
-                if self.prs().is_singleton() {
+                // The only voter can answer at once, but only if it is this node: a leader
+                // that has been removed from the voters still needs the voter's confirmation.
+                if self.prs().is_singleton() && self.prs().conf().voters().contains(self.id) {
                     let read_index = self.raft_log.committed;
                     if let Some(m) = self.handle_ready_read_index(m, read_index) {
                         self.r.send(m, &mut self.msgs);
